@@ -24,6 +24,11 @@ try:
             pkg = cand
     if re.search(r'^package\s+main(_test)?\s*$', txt, re.M):
         pkg = '.' if os.path.isfile(demo) and demo.endswith('_test.go') else 'DEMOPROG'
+    if pkg is None:
+        mm = re.search(r'^package\s+(\w+?)(_test)?\s*$', txt, re.M)
+        if mm and mm.group(1) != 'main':
+            pkg = mm.group(1)          # demo lives in a directory of its own
+            os.makedirs(os.path.join(wt, pkg), exist_ok=True)
     res['demo_pkg'] = pkg
     def put_demo():
         if pkg == 'DEMOPROG':
@@ -35,6 +40,7 @@ try:
             else:
                 shutil.copy(demo, os.path.join(d, 'main.go'))
             return ['go', 'run', './zz_demo_' + k]
+        os.makedirs(os.path.join(wt, pkg), exist_ok=True)
         shutil.copy(demo, os.path.join(wt, pkg, 'zz_' + os.path.basename(demo)))
         names = re.findall(r'^func (Test\w+)\(', txt, re.M)
         return ['go', 'test', '-vet=off', '-count=1', '-timeout', '20m', '-run', '^(' + '|'.join(names) + ')$', './' + pkg]
